@@ -161,6 +161,49 @@ theorem mem_designatedList {sf : SpokFile} {cwd d : Str} :
     | glob ht hg hm => exact .inl ⟨_, ht, .inl (.inl ⟨_, hg, _, hm, rfl⟩)⟩
     | cache => exact .inr rfl
 
+/-- when collecting the targets succeeds: all named outputs defined, no `os.Stat` failure of the ENOTDIR kind -/
+theorem targets_total {sf : SpokFile} {cwd : Str} {fs : FS}
+    (hdef : ∀ t ∈ sf.tasks, ∀ n ∈ t.namedOutputs, ∃ v, lookupVar sf.vars n = some v)
+    (hstat : ∀ d ∈ designatedList sf cwd, statErr fs (pathOf d) = false) :
+    targets sf cwd fs = .ok (designatedList sf cwd) := by
+  have hper : mapE (taskTargets sf cwd fs) sf.tasks = .ok (sf.tasks.map (taskDesignated sf cwd)) := by
+    apply mapE_total
+    intro t ht
+    have hmem : ∀ d ∈ taskDesignated sf cwd t, d ∈ designatedList sf cwd := by
+      intro d hd
+      rw [designatedList_eq]
+      exact List.mem_append_left _ (List.mem_flatMap.2 ⟨t, ht, hd⟩)
+    have h1 : mapE (fun o => statted fs (fileTarget sf cwd o)) t.fileOutputs =
+        .ok (t.fileOutputs.map (fileTarget sf cwd)) := by
+      apply mapE_total
+      intro o ho
+      have : statErr fs (pathOf (fileTarget sf cwd o)) = false :=
+        hstat _ (hmem _ (List.mem_append_left _ (List.mem_append_right _ (List.mem_map.2 ⟨o, ho, rfl⟩))))
+      simp [statted, this]
+    have h2 : mapE (namedTarget sf cwd fs) t.namedOutputs =
+        .ok (t.namedOutputs.map (fun n => abs cwd ((lookupVar sf.vars n).getD []))) := by
+      apply mapE_total
+      intro n hn
+      obtain ⟨v, hv⟩ := hdef t ht n hn
+      have : statErr fs (pathOf (abs cwd v)) = false :=
+        hstat _ (hmem _ (List.mem_append_right _ (List.mem_filterMap.2 ⟨n, hn, by simp [hv]⟩)))
+      simp [namedTarget, hv, statted, this]
+    have h3 : t.namedOutputs.map (fun n => abs cwd ((lookupVar sf.vars n).getD [])) =
+        t.namedOutputs.filterMap (fun n => (lookupVar sf.vars n).map (abs cwd)) := by
+      have : ∀ ns : List Str, (∀ n ∈ ns, ∃ v, lookupVar sf.vars n = some v) →
+          ns.map (fun n => abs cwd ((lookupVar sf.vars n).getD [])) =
+          ns.filterMap (fun n => (lookupVar sf.vars n).map (abs cwd)) := by
+        intro ns
+        induction ns with
+        | nil => simp
+        | cons a rest ih =>
+          intro h
+          obtain ⟨v, hv⟩ := h a (by simp)
+          simp [hv, ih (fun n hn => h n (by simp [hn]))]
+      exact this _ (hdef t ht)
+    simp [taskTargets, h1, h2, h3, taskDesignated]
+  simp [targets, hper, designatedList_eq, List.flatMap_def]
+
 /-! ## removing one after the other = one filter -/
 
 theorem foldl_removeAll (ts : List Str) (fs : FS) :
